@@ -317,3 +317,7 @@ def run(ctx):
     from rules import c19
     c19.rule_setters_verbatim(ctx, R="C05/supplied-verbatim", only=("crash_context",))
     c19.rule_fresh_writer(ctx, R="C05/blamed-thread-from-new")
+    # the supplied crash context is what every dump from this writer attributes the crash to (same rule instance as C19/config-preserved)
+    from rules import c19 as _c19
+    _c19.rule_config_preserved(ctx, R="C05/options-kept", only=("crash_context",))
+
